@@ -1,5 +1,5 @@
 """C04 - certificates are valid witnesses and appear exactly when promised (shape + assembly clauses)"""
-from . import dynalloc, accept, provenance, dyn
+from . import dynalloc, accept, provenance, dyn, dyncnf
 
 
 def run(ctx):
@@ -17,6 +17,7 @@ def run(ctx):
     accept.rule_certificate_from_maximal_state(ctx)
     dynalloc.rule_id_indexed_vectors(ctx)
     dyn.rule_cached_witness_consistent(ctx)
+    dyncnf.rule_dynamic_variable_registration(ctx)
     ctx.assume("rustc's MIR / borrow checker; summaries of sa/shapes.py (bool/Option/tuple shapes, callee summaries, relational restriction by dominating conditions)")
     return (
         "F5 return-shape summaries of all 24 *_with_certificate impls (static and dynamic, through helpers, caches and dyn dispatch) against the "
